@@ -72,8 +72,11 @@ func (a *activityManager) BecomeLeader() error {
 	if err := a.createActivityStream(); err != nil {
 		return err
 	}
-	a.leadershipLostCh = make(chan struct{})
-	a.startGoroutine(a.dispatch)
+	// The dispatch goroutine gets its own reference to the channel: the field
+	// is reset when leadership is lost and replaced on the next promotion.
+	leadershipLostCh := make(chan struct{})
+	a.leadershipLostCh = leadershipLostCh
+	a.startGoroutine(func() { a.dispatch(leadershipLostCh) })
 	return nil
 }
 
@@ -84,8 +87,12 @@ func (a *activityManager) BecomeFollower() error {
 		return nil
 	}
 
+	// This can be called more than once per leadership term, e.g. when a
+	// leadership notification was superseded or when the promotion failed
+	// before BecomeLeader, so make sure the channel is closed only once.
 	if a.leadershipLostCh != nil {
 		close(a.leadershipLostCh)
+		a.leadershipLostCh = nil
 	}
 	return nil
 }
@@ -93,15 +100,16 @@ func (a *activityManager) BecomeFollower() error {
 // dispatch is a long-running goroutine that runs while the server is the
 // metadata leader. It handles publishing events to the activity stream as they
 // are committed to the Raft log. Events are always published in the order in
-// which they were committed to the log.
-func (a *activityManager) dispatch() {
+// which they were committed to the log. It stops when leadershipLostCh is
+// closed.
+func (a *activityManager) dispatch(leadershipLostCh <-chan struct{}) {
 	var (
 		raftNode = a.getRaft()
 		index    = a.LastPublishedRaftIndex() + 1
 	)
 	for {
 		select {
-		case <-a.leadershipLostCh:
+		case <-leadershipLostCh:
 			return
 		default:
 		}
@@ -112,7 +120,7 @@ func (a *activityManager) dispatch() {
 			select {
 			case <-a.commitCh:
 				continue
-			case <-a.leadershipLostCh:
+			case <-leadershipLostCh:
 				return
 			case <-a.shutdownCh:
 				return
@@ -135,7 +143,7 @@ func (a *activityManager) dispatch() {
 			select {
 			case <-time.After(backoff):
 				goto RETRY
-			case <-a.leadershipLostCh:
+			case <-leadershipLostCh:
 				return
 			case <-a.shutdownCh:
 				return
